@@ -143,3 +143,71 @@ Proof.
     vm_compute in E3. inversion E3; subst r3. discriminate.
   - rewrite <- CW. vm_compute in EW. inversion EW; subst rW. discriminate.
 Qed.
+
+(* ---------- moving functions between packages ---------- *)
+(* Two partitions of the same program into chains of packages (the unions of their annotations and triggers are
+   permutations of each other: functions moved into a dependency or into an importer, packages merged or split), each
+   meeting the side conditions of the chain theorem: the last modular run of the one reports a conflict iff the last
+   modular run of the other does.  Both equal the one whole-program engine, which does not depend on the order. *)
+Theorem chain_repartition : forall exported facts pkgs pkgs' stI stI',
+  modular exported facts pkgs stI -> modular exported facts pkgs' stI' ->
+  Permutation (m_ann pkgs) (m_ann pkgs') -> Permutation (m_ts pkgs) (m_ts pkgs') ->
+  wf_triggers (m_ts pkgs) -> wf_triggers (m_ts pkgs') ->
+  (conflicts stI <> [] <-> conflicts stI' <> []).
+Proof.
+  intros exported facts pkgs pkgs' stI stI' M M' Pa Pt Wf Wf'.
+  destruct (engine_terminates facts (m_ann pkgs) (m_ts pkgs) Wf) as [stW RW].
+  destruct (engine_terminates facts (m_ann pkgs') (m_ts pkgs') Wf') as [stW' RW'].
+  rewrite <- (chain_equals_whole exported facts pkgs stI M stW RW).
+  rewrite <- (chain_equals_whole exported facts pkgs' stI' M' stW' RW').
+  exact (proj1 (engine_order_independent _ _ _ _ _ _ _ _ (Permutation_refl _) Pa Pt RW RW')).
+Qed.
+
+(* ... and when both last runs are conflict-free they give the same verdict to every site visible at every link of both *)
+Theorem chain_repartition_verdicts : forall exported V facts pkgs pkgs' stI stI',
+  modularV exported V facts pkgs stI -> modularV exported V facts pkgs' stI' ->
+  Permutation (m_ann pkgs) (m_ann pkgs') -> Permutation (m_ts pkgs) (m_ts pkgs') ->
+  wf_triggers (m_ts pkgs) -> wf_triggers (m_ts pkgs') ->
+  conflicts stI = [] -> conflicts stI' = [] ->
+  forall s, V s -> dv stI s = dv stI' s.
+Proof.
+  intros exported V facts pkgs pkgs' stI stI' M M' Pa Pt Wf Wf' C C' s Vs.
+  destruct (engine_terminates facts (m_ann pkgs) (m_ts pkgs) Wf) as [stW RW].
+  destruct (engine_terminates facts (m_ann pkgs') (m_ts pkgs') Wf') as [stW' RW'].
+  rewrite <- (chain_verdicts_equal exported V facts pkgs stI M stW RW C s Vs).
+  rewrite <- (chain_verdicts_equal exported V facts pkgs' stI' M' stW' RW' C' s Vs).
+  destruct (engine_order_independent _ _ _ _ _ _ _ _ (Permutation_refl facts) Pa Pt RW RW') as [I E].
+  apply E. destruct (conflicts stW) eqn:CW; [reflexivity|]. exfalso.
+  apply (proj1 (chain_equals_whole exported facts pkgs stI (modularV_modular _ _ _ _ _ M) stW RW)); [rewrite CW; discriminate|exact C].
+Qed.
+
+(* non-vacuity: the three-package chain above and the two-package chain obtained by moving every function of p2 into p1 *)
+Definition exC_p12 := {| p_ann := []; p_ts := p_ts exC_p1 ++ p_ts exC_p2 |}.
+
+Lemma exC_chain2 : exists stI, modular exC_exported [] [exC_p12; exC_p3] stI /\ conflicts stI <> [].
+Proof.
+  destruct (analyze_pkg exC_exported 100 [] (p_ann exC_p12) (p_ts exC_p12)) as [|r1|r1] eqn:E1; try (vm_compute in E1; discriminate).
+  destruct (analyze_pkg_run_up _ _ _ _ _ _ E1) as [up1 [st1 [R1 [C1 [M1 X1]]]]].
+  destruct (analyze_pkg exC_exported 100 ([] ++ opt_fact 0 (r_fact r1)) (p_ann exC_p3) (p_ts exC_p3)) as [|r3|r3] eqn:E3;
+    try (vm_compute in E1; inversion E1; subst r1; vm_compute in E3; discriminate).
+  destruct (analyze_pkg_run _ _ _ _ _ _ (or_introl E3)) as [st3 [R3 [C3 _]]].
+  exists st3. split.
+  - eapply mod_cons with (n := 0); [exact R1|exact X1| | | | |].
+    + rewrite <- C1. vm_compute in E1. inversion E1; subst r1. reflexivity.
+    + intros s Hs. vm_compute in Hs.
+      repeat (destruct Hs as [<-|Hs]; [first [left; reflexivity | right; rewrite <- M1; vm_compute in E1; inversion E1; reflexivity]|]).
+      destruct Hs.
+    + intros k a H. vm_compute in H. destruct H.
+    + apply wf_uncontrolled. reflexivity.
+    + apply mod_last. exact R3.
+  - rewrite <- C3. vm_compute in E1. inversion E1; subst r1. vm_compute in E3. inversion E3; subst r3. discriminate.
+Qed.
+
+Lemma exC_repartition_hyps :
+  Permutation (m_ann [exC_p1; exC_p2; exC_p3]) (m_ann [exC_p12; exC_p3]) /\
+  Permutation (m_ts [exC_p1; exC_p2; exC_p3]) (m_ts [exC_p12; exC_p3]) /\
+  wf_triggers (m_ts [exC_p1; exC_p2; exC_p3]) /\ wf_triggers (m_ts [exC_p12; exC_p3]).
+Proof.
+  split; [apply Permutation_refl|]. split; [vm_compute; apply Permutation_refl|].
+  split; apply wf_uncontrolled; reflexivity.
+Qed.
